@@ -189,6 +189,89 @@ def oracle_dephased(r):
     return lab
 
 
+def _defers(r):
+    """Does cirq.final_density_matrix have to defer a measurement of this recipe (anything acts on a measured wire again,
+    a key is read by a control, a Pauli measurement)?"""
+    seen = set()
+    for o in r["ops"]:
+        if o["k"] in ("cg", "pm") or any(w in seen for w in o["w"]):
+            return True
+        if o["k"] == "m":
+            seen.update(o["w"])
+    return False
+
+
+def oracle_dephased_general(r):
+    """cirq.final_density_matrix (results ignored) on circuits with mid-circuit measurements, resets and classical control:
+    'all measurements are treated as sources of decoherence' == sum_b p_b rho_b over every outcome branch."""
+    has_cc = any(o["k"] == "cg" for o in r["ops"])
+    if has_cc and any(o["k"] == "m" and o.get("conf") for o in r["ops"]):
+        raise Reject("confusion map + classical control: defer_measurements documents NotImplementedError")
+    n = len(r["dims"])
+    # with classical control the documented entry point is used with the default (sorted) order unless the recipe forces an
+    # explicit one (known finding C09-N4: any explicit qubit_order fails once ancilla qubits are added)
+    force = bool(r.get("force_order"))
+    qs0 = GC.qubits_of(r)
+    sorted_order = sorted(range(n), key=lambda i: qs0[i])
+    deferring = _defers(r)  # the entry point defers every non-terminal measurement onto ancilla qubits
+    wire_order = list(r["order"]) if (force or not deferring) else sorted_order
+    circuit, qs, ir, key_dims = MC.build(r, wire_order)
+    order = [qs[i] for i in wire_order]
+    shape = [r["dims"][i] for i in wire_order]
+    D = L.dim(shape)
+    init = r["init"]
+    kw = {}
+    rho0 = None
+    if init["kind"] == "int" and not deferring:
+        rho0 = np.outer(L.basis_vector(init["v"], D), L.basis_vector(init["v"], D))
+        kw["initial_state"] = init["v"]
+    elif init["kind"] == "pure" and not deferring:
+        psi0 = L.state_from_floats(init["v"], D)
+        rho0 = np.outer(psi0, psi0.conj())
+        kw["initial_state"] = psi0
+    # (with classical control the entry point adds ancilla qubits; an initial state for the circuit's own qubits is then not
+    #  expressible through this entry point - default initial state there)
+    if len(circuit.all_qubits()) != n:
+        raise Reject("idle wire: the default order would not contain it")
+    try:
+        ref = RI.run(ir, shape, rho0=rho0, max_branches=512)
+    except OverflowError:
+        raise Reject("too many branches")
+    if deferring and not force:
+        fd = cirq.final_density_matrix(circuit, dtype=np.complex128, **kw)
+    else:
+        fd = cirq.final_density_matrix(circuit, qubit_order=order, dtype=np.complex128, **kw)
+    _psd_valid("cirq.final_density_matrix", fd)
+    d = L.max_abs_diff(fd, RI.total_rho(ref))
+    if d > 1e-6:
+        raise Violation(f"cirq.final_density_matrix (measurement results ignored) differs from sum_b p_b rho_b over the outcome branches by {d:.3g}")
+    lab = _entangling_features(r)
+    lab["classical_control"] = has_cc
+    lab["mid_circuit_measurement"] = not MC.is_terminal_only(r)
+    lab["reset"] = any(o["k"] == "r" for o in r["ops"])
+    lab["nontrivial"] = lab["mid_circuit_measurement"] and (has_cc or lab["n_channels"] >= 1)
+    return lab
+
+
+@st.composite
+def _dephased_general_case(draw):
+    r = draw(MC.meas_circuit_recipes(max_w=3, max_ops=8, channels=True, max_branches=16, pauli_meas=False, ch_weight=2, stored=True,
+                                     confusion=False))
+    n = len(r["dims"])
+    r["order"] = list(draw(st.permutations(list(range(n)))))
+    D = L.dim(r["dims"])
+    kind = draw(st.sampled_from(["default", "default", "int", "pure"]))
+    r["init"] = {"kind": "default"} if kind == "default" else (
+        {"kind": "int", "v": draw(st.integers(0, D - 1))} if kind == "int" else
+        {"kind": "pure", "v": draw(st.lists(G.small_floats(), min_size=2 * D, max_size=2 * D))})
+    r["force_order"] = draw(st.integers(0, 4)) == 0
+    return r
+
+
+def _feat_fdm_cc_order(sub, r):
+    return sub == "dephased_general" and bool(r.get("force_order")) and _defers(r)
+
+
 @st.composite
 def _dephased_case(draw):
     r = draw(_dm_case(qudits=draw(st.integers(0, 3)) == 0))
@@ -233,6 +316,7 @@ def _feat_noise_prefix_split(sub, r):
 KNOWN_FEATURES = {
     "C09_dephase_measurements_qudit": _feat_dephase_qudit,
     "C09_noise_system_qubits_per_run_prefix": _feat_noise_prefix_split,
+    "C09_final_dm_classical_control_qubit_order": _feat_fdm_cc_order,
 }
 
 
@@ -647,11 +731,12 @@ def oracle_device_noise(r):
 
 
 SUBCHECKS = [
-    SubCheck("dm", _dm_case(), oracle_dm, quick=3000, thorough=15000, shards_quick=6, essential={"nonunital": 0.04}),
-    SubCheck("dm_qudit", _dm_case(qudits=True), oracle_dm, quick=300, thorough=4000, shards_quick=2),
-    SubCheck("dephased", _dephased_case(), oracle_dephased, quick=1000, thorough=6000, shards_quick=2),
-    SubCheck("trajectories", _traj_case(), oracle_traj, quick=1500, thorough=8000, shards_quick=8),
+    SubCheck("dm", _dm_case(), oracle_dm, valid=MC.valid_recipe, quick=3000, thorough=15000, shards_quick=6, essential={"nonunital": 0.04}),
+    SubCheck("dm_qudit", _dm_case(qudits=True), oracle_dm, valid=MC.valid_recipe, quick=300, thorough=4000, shards_quick=2),
+    SubCheck("dephased", _dephased_case(), oracle_dephased, valid=MC.valid_recipe, quick=1000, thorough=6000, shards_quick=2),
+    SubCheck("dephased_general", _dephased_general_case(), oracle_dephased_general, valid=MC.valid_recipe, quick=800, thorough=8000, shards_quick=2),
+    SubCheck("trajectories", _traj_case(), oracle_traj, valid=MC.valid_recipe, quick=1500, thorough=8000, shards_quick=8),
     SubCheck("representations", _reps_strategy(), oracle_reps, quick=3000, thorough=30000, shards_quick=3),
     SubCheck("noise_device", _device_noise_case(), oracle_device_noise, quick=400, thorough=4000, shards_quick=2),
-    SubCheck("noise_models", _noise_case(), oracle_noise, quick=1200, thorough=5000, shards_quick=4),
+    SubCheck("noise_models", _noise_case(), oracle_noise, valid=MC.valid_recipe, quick=1200, thorough=5000, shards_quick=4),
 ]
